@@ -458,6 +458,7 @@ func CheckC15(run *Run) {
 	run.Prepare()
 	reqs := append(C15ClashCatalogue(), C15Catalogue()...)
 	reqs = append(reqs, C15SharedCatalogue()...)
+	reqs = append(reqs, C15SameNameCatalogue()...)
 	repeats := 3
 	clashRepeats := 24 // 2^-24 chance to miss a two-name clash left in map order
 	if run.Tier == "thorough" {
@@ -616,6 +617,30 @@ func CheckC15(run *Run) {
 	for k, j := range perm {
 		crs[j].Apply(vs[k])
 	}
+	// Outside the model: Order.v's files carry messages only.  protoc-gen-openapiv3 names its output <Service>.openapi.<ext>,
+	// so two generated files that declare a service of the same name (other packages) write ONE file name and the later one
+	// wins (C18's finding service-name-collision seen from C15).  Those comparisons are oracle-only; a failure is the listed
+	// finding only if the OpenAPI document is the sole output that differs.
+	for i, c := range cmps {
+		if !hasTag(c.req, "same-names") {
+			continue
+		}
+		cr := crs[i]
+		cr.Unmodelled = "two generated files declare services of the same name (the model's files carry messages only)"
+		cr.Agree = true
+		cr.Pred = nil
+		if !cr.OracleHolds {
+			only := true
+			for _, part := range strings.Split(cr.OracleNote, " | ") {
+				if !strings.HasPrefix(part, "openapiv3: ") && !strings.HasSuffix(part, "emitted in one run only") {
+					only = false
+				}
+			}
+			if only && strings.Contains(cr.OracleNote, ".openapi.") {
+				cr.Tags = []string{"z3:openapi-output-name-shared-by-homonymous-services"}
+			}
+		}
+	}
 	run.Results = append(run.Results, crs...)
 	run.Extra["plugin_processes"] = len(order) * len(Plugins)
 	run.Extra["comparisons"] = len(cmps)
@@ -626,3 +651,28 @@ func CheckC15(run *Run) {
 }
 
 var _ = descriptorpb.FileDescriptorProto{}
+
+// C15SameNameCatalogue: files of one invocation that declare things with the SAME simple names (service, RPC, request
+// and response message) in different packages, with different service/method headers, paths and query parameters.  What
+// a plugin emits for one file must not depend on the homonyms of the other.
+func C15SameNameCatalogue() []*Request {
+	mk := func(id string, same bool) *Request {
+		v1, v2 := id+".v1", id+".v2"
+		f1 := &File{Path: id + "/v1/account.proto", Package: v1, GoPackage: "verifgen/" + id + "/v1;accountv1", Generate: true,
+			Messages: []*Message{M("GetRequest", F("id", 1, "string"), F("view", 2, "string", Query("view", false))), M("Account", F("id", 1, "string"), F("name", 2, "string"))},
+			Services: []*Service{Svc("AccountService", "/v1", RPC("GetAccount", v1+".GetRequest", v1+".Account", "GET", "/accounts/{id}").
+				WithHeaders(&Header{Name: "X-Trace", Type: "string", Required: false})).
+				WithHeaders(&Header{Name: "X-API-Key", Type: "string", Required: true})}}
+		h2 := &Header{Name: "X-Auth-Token", Type: "string", Format: "uuid", Required: true}
+		if same {
+			h2 = &Header{Name: "X-API-Key", Type: "string", Required: true}
+		}
+		f2 := &File{Path: id + "/v2/account.proto", Package: v2, GoPackage: "verifgen/" + id + "/v2;accountv2", Generate: true,
+			Messages: []*Message{M("GetRequest", F("account_id", 1, "string"), F("page", 2, "int32", Query("page", true))), M("Account", F("account_id", 1, "string"), F("big", 2, "int64", I64("NUMBER")))},
+			Services: []*Service{Svc("AccountService", "/v2", RPC("GetAccount", v2+".GetRequest", v2+".Account", "GET", "/accts/{account_id}").
+				WithHeaders(&Header{Name: "X-Request-ID", Type: "integer", Required: true})).
+				WithHeaders(h2)}}
+		return &Request{ID: id, Files: []*File{f1, f2}, Tags: []string{"order", "same-names"}}
+	}
+	return []*Request{mk("ordsame", false), mk("ordsamehdr", true)}
+}
